@@ -43,7 +43,7 @@ func (e *Engine) quiesce() int {
 	}
 	n := 0
 	for _, t := range e.threads {
-		if t != main && !t.done && !t.daemon {
+		if t != main && !t.done && !t.daemon && !t.killed {
 			n++
 		}
 	}
